@@ -345,6 +345,23 @@ func (g *gen) inject(pos token.Pos, name string, sig *types.Signature, set *Prov
 				g.pkg.Fset.Position(pos),
 				fmt.Errorf("inject %s: provider for %s returns error but injection not allowed to fail", name, ts)))
 		}
+		if c.pkg != nil && c.pkg.Path() != g.pkg.PkgPath {
+			// The generated code refers to the provider function, struct type
+			// and field names by name; they must be visible from this package.
+			ts := types.TypeString(c.out, nil)
+			if !ast.IsExported(c.name) {
+				ec.add(notePosition(
+					g.pkg.Fset.Position(pos),
+					fmt.Errorf("inject %s: provider for %s uses unexported identifier %s.%s", name, ts, c.pkg.Name(), c.name)))
+			}
+			for _, fn := range c.fieldNames {
+				if !ast.IsExported(fn) {
+					ec.add(notePosition(
+						g.pkg.Fset.Position(pos),
+						fmt.Errorf("inject %s: struct provider for %s sets unexported field %s.%s.%s", name, ts, c.pkg.Name(), c.name, fn)))
+				}
+			}
+		}
 		if c.kind == valueExpr {
 			if err := accessibleFrom(c.valueTypeInfo, c.valueExpr, g.pkg.PkgPath); err != nil {
 				// TODO(light): Display line number of value expression.
